@@ -230,6 +230,12 @@ static inline long it_distance(it_t a, it_t b) { return b - a; }
 #ifndef VEC_CAP
 #define VEC_CAP 8
 #endif
+#ifdef VERIF_CBMC
+#define VEC_ALLOC(n) __CPROVER_allocate((n), 0)
+#else
+#include <stdlib.h>
+#define VEC_ALLOC(n) malloc(n)
+#endif
 #define DEF_VEC(NAME, T) \
   typedef struct { T *data; unsigned long n; } NAME; \
   static inline unsigned long NAME##_size(const NAME *v) { return v->n; } \
@@ -240,7 +246,15 @@ static inline long it_distance(it_t a, it_t b) { return b - a; }
   static inline T *NAME##_begin(NAME *v) { return v->data; } \
   static inline T *NAME##_end(NAME *v) { return v->data + v->n; } \
   static inline T *NAME##_at(NAME *v, unsigned long i) { MODEL_PRE(i < v->n, "vector[i] requires i < size()"); return &v->data[i]; } \
-  static inline void NAME##_push_back(NAME *v, T x) { MODEL_LIMIT(v->n < VEC_CAP, "vector capacity of the model"); v->data[v->n] = x; v->n++; } \
+  static inline void NAME##_push_back(NAME *v, T x) { \
+    MODEL_LIMIT(v->n < VEC_CAP, "vector capacity of the model"); \
+    if (v->data == 0) v->data = (T *)VEC_ALLOC(VEC_CAP * sizeof(T)); \
+    v->data[v->n] = x; v->n++; } \
+  static inline NAME NAME##_fill(unsigned long n, T x) { \
+    NAME r; MODEL_LIMIT(n <= VEC_CAP, "vector capacity of the model"); \
+    r.data = (T *)VEC_ALLOC(VEC_CAP * sizeof(T)); r.n = n; \
+    for (unsigned long k = 0; k < n; k++) r.data[k] = x; \
+    return r; } \
   static inline void NAME##_clear(NAME *v) { v->n = 0; } \
   static inline T *NAME##_erase(NAME *v, T *it) { \
     MODEL_PRE(v->data <= it && it < v->data + v->n, "vector::erase requires a dereferenceable iterator of this vector"); \
@@ -280,6 +294,12 @@ static inline long it_distance(it_t a, it_t b) { return b - a; }
       else { first = mid + 1; len = len - half - 1; } \
     } \
     return first; }
+
+/* std::any_of(first, last, pred) over an element-pointer range */
+#define DEF_ANY_OF_PTR(NAME, T, CLO, PRED) \
+  static _Bool NAME(T *first, T *last, CLO *pred) { \
+    for (; first != last; ++first) if (PRED(pred, first)) return 1; \
+    return 0; }
 
 #endif
 
